@@ -220,7 +220,9 @@ func runC10(c *eng.Ctx) {
 	}
 	// (c) derivations with one bad element injected at every byte position
 	if c.Want("f", 3) {
-		bads := []string{"\x00", "\xff", "\xc3", "\"", "`", "\"\\x\"", "\"\\400\"", "\\", "\n", "[", "(", "{", "}", ")", "]"}
+		bads := []string{"\x00", "\xff", "\xc3", "\"", "`", "\"\\x\"", "\"\\400\"", "\\", "\n", "[", "(", "{", "}", ")", "]",
+			// blanks that are NOT whitespace of the grammar ([ \t\r\n] only)
+			"\v", "\f", "\u0085", "\u00a0", "\u2028", "\u3000", "\ufeff", "\u200b"}
 		idx := 0
 		for _, d := range c15Derivations(c.Thorough()) {
 			for pos := 0; pos <= len(d); pos++ {
